@@ -21,7 +21,8 @@ func init() {
 			"R2 one grammar: the patterns given to regexp.MustCompile are compile-time constants that compile, the reference pattern has the capture groups the parser indexes, and (comparing regexp/syntax trees) the sub-expression of its host group is the host predicate's pattern and that of its repository group is the repository predicate's pattern — so a parsed host/repository satisfies its predicate for every input; " +
 			"R3 post-regexp checks (disjunctive path facts): every successful return of ParseRelative holds (tag empty or accepted by the function IsValidTag uses) and (digest empty or validated) and (repository length checked), and the tag check enforces the 128-byte limit; " +
 			"R4 the HTTP router calls exactly these predicates (decided under C06.R2) and the deprecated wrappers in the root package delegate to them unchanged. " +
-			"R3b the tag check returns nil only for a non-empty tag; R5 the request classifier accepts a repository/tag/digest only if it passed the ociref predicate (shared with C06.R2).",
+			"R3b the tag check returns nil only for a non-empty tag; R5 the request classifier accepts a repository/tag/digest only if it passed the ociref predicate (shared with C06.R2). " +
+			"R6 the request router applies no lexical path normaliser; R7 the validity predicates and the router write no package-level state.",
 		NotDecided: "the print-then-parse identity on values (String followed by Parse yields the same parts) is not decided.",
 		Technique:  "static analysis: panic-site inventory with bounds prover, regexp/syntax tree comparison of constant patterns, disjunctive path facts",
 	})
